@@ -44,10 +44,13 @@ impl<T: BufRead> Parser<T> {
         let entry_base = self.parse_first_line(c)?;
         let next_line_size = self.reader.peek()?;
         if next_line_size == 0 || self.reader.buf.chars().next().unwrap().is_ascii_digit() {
-            return Ok(Some(Entry {
+            let entry = Entry {
                 line_count,
                 ..entry_base
-            }));
+            };
+            #[cfg(okane_verif)]
+            okane_core::verif::emit(|| verif_entry_event(&entry));
+            return Ok(Some(entry));
         }
         let read_bytes = self.reader.read_line()?;
         if read_bytes == 0 {
@@ -67,13 +70,16 @@ impl<T: BufRead> Parser<T> {
             .transpose()?
             .flatten();
         self.skip_air_tags()?;
-        Ok(Some(Entry {
+        let entry = Entry {
             line_count,
             category,
             exchange,
             fee,
             ..entry_base
-        }))
+        };
+        #[cfg(okane_verif)]
+        okane_core::verif::emit(|| verif_entry_event(&entry));
+        Ok(Some(entry))
     }
 
     fn parse_first_line(&self, c: regex::Captures) -> Result<Entry, ImportError> {
@@ -235,11 +241,15 @@ impl<T: BufRead> LineReader<T> {
     /// It'll invalidate the previous buf.
     fn peek(&mut self) -> Result<usize, std::io::Error> {
         if let Some(read_bytes) = self.is_peek {
+            #[cfg(okane_verif)]
+            okane_core::verif::emit(|| verif_reader_event("peek", self.line_count, read_bytes, true));
             return Ok(read_bytes);
         }
         self.buf.clear();
         let read_bytes = self.reader.read_line(&mut self.buf)?;
         self.is_peek = Some(read_bytes);
+        #[cfg(okane_verif)]
+        okane_core::verif::emit(|| verif_reader_event("peek", self.line_count, read_bytes, false));
         Ok(read_bytes)
     }
 
@@ -247,13 +257,43 @@ impl<T: BufRead> LineReader<T> {
         if let Some(read_bytes) = self.is_peek {
             self.line_count += 1;
             self.is_peek = None;
+            #[cfg(okane_verif)]
+            okane_core::verif::emit(|| verif_reader_event("read", self.line_count, read_bytes, true));
             return Ok(read_bytes);
         }
         self.buf.clear();
         let read_bytes = self.reader.read_line(&mut self.buf)?;
         self.line_count += 1;
+        #[cfg(okane_verif)]
+        okane_core::verif::emit(|| verif_reader_event("read", self.line_count, read_bytes, false));
         Ok(read_bytes)
     }
+}
+
+/// One event of the line reader for conformance checking: `count` is the number of lines
+/// consumed so far, `eof` whether the reader had nothing left, `cached` whether the line
+/// had been peeked before.
+#[cfg(okane_verif)]
+fn verif_reader_event(ev: &str, count: usize, read_bytes: usize, cached: bool) -> String {
+    format!(
+        "{{\"ev\":{:?},\"count\":{},\"eof\":{},\"cached\":{}}}",
+        ev,
+        count,
+        read_bytes == 0,
+        cached
+    )
+}
+
+/// The record handed out by `parse_entry`, for conformance checking.
+#[cfg(okane_verif)]
+fn verif_entry_event(entry: &Entry) -> String {
+    format!(
+        "{{\"ev\":\"entry\",\"line\":{},\"category\":{:?},\"exchange\":{},\"fee\":{}}}",
+        entry.line_count,
+        entry.category,
+        entry.exchange.is_some(),
+        entry.fee.is_some()
+    )
 }
 
 fn parse_euro_date(s: &str) -> Result<NaiveDate, chrono::ParseError> {
